@@ -944,8 +944,8 @@ EQUIV = [
 # behaviour-preserving refactors written by independent sub-agents (equiv/agent/<property>-<n>.diff, with the agent's argument in the
 # .json next to it): every check must stay silent on every one of them
 import glob as _glob
-for _p in sorted(_glob.glob(os.path.join(EQ, "agent", "*.diff"))):
-    EQUIV.append(("eq-agent-" + os.path.basename(_p)[:-5], ["C%02d" % i for i in range(1, 21)], [_p], []))
+for _p in sorted(_glob.glob(os.path.join(EQ, "agent*", "*.diff"))):
+    EQUIV.append(("eq-" + os.path.basename(os.path.dirname(_p)) + "-" + os.path.basename(_p)[:-5], ["C%02d" % i for i in range(1, 21)], [_p], []))
 
 
 def seeded():
